@@ -18,7 +18,7 @@ from __future__ import annotations
 import dataclasses
 import threading
 
-from . import core, driver, forkrun, gen, steps, streams, universe
+from . import core, driver, forkrun, gen, steps, streams, universe, workload
 from .threads import Scheduler, StepCapExceeded
 
 PROP = "C19"
@@ -132,13 +132,11 @@ def _golden_child(qn: str, trees: list) -> list:
     for t in trees:
         try:
             inst = gen.from_tree(t)
-            sink = streams.SimSink()
-            entity_writer(cls)(sink, inst)
-            data = streams.sink_data(sink)
-            src = streams.SimSource(data)
-            val = entity_reader(cls)(src)
+            # plain in-memory streams: which kinds of sink/source work is C07's subject
+            data, nw = workload.encode_clean(cls, inst)
+            val, src = workload.decode_clean(cls, data)
             ok = val == inst and type(val) is cls and src.pos == len(data)
-            out.append((data, gen.to_tree(val), sink.ncalls, src.ncalls) if ok else None)
+            out.append((data, gen.to_tree(val), nw, len(src.calls)) if ok else None)
         except Exception:  # noqa: BLE001
             out.append(None)
     return out
@@ -297,7 +295,7 @@ def exec_op(op: list, wl: Workload, cache: dict) -> str | None:
         w = entity_writer(cls, nullable=True) if kind == "encn" else entity_writer(cls)
         want = (b"\xff" if inst is None else b"\x01" + g[0]) if kind == "encn" else g[0]
         for _ in range(reps):
-            sink = streams.SimSink(returns_none=bool(reps & 1))
+            sink = streams.SimSink(returns_none=bool(reps & 1), retain=False)
             try:
                 w(sink, inst)
             except Exception as e:  # noqa: BLE001
@@ -349,7 +347,7 @@ def exec_op(op: list, wl: Workload, cache: dict) -> str | None:
             return None
         try:
             inst = _from_tree_poison(bad)
-            entity_writer(cls)(streams.SimSink(), inst)
+            entity_writer(cls)(streams.SimSink(retain=False), inst)
         except Exception:  # noqa: BLE001 - expected: the writer rejects the value
             pass
         return None
@@ -551,7 +549,7 @@ def _faults_child(wl_json: dict, gold: list, ci: int, ii: int, others: list, pla
         for n_, i in enumerate(idxs):
             kind = only[2] if only is not None else INJECT_W[rng.randrange(len(INJECT_W))]
             exc = streams.make_injected(kind, i)
-            sink = streams.SimSink(fail_at=i, fail_exc=exc)
+            sink = streams.SimSink(fail_at=i, fail_exc=exc, retain=False)
             st.inc(f"fault_write_{kind}")
             try:
                 w(sink, inst)
@@ -563,9 +561,17 @@ def _faults_child(wl_json: dict, gold: list, ci: int, ii: int, others: list, pla
             if i < W and not streams.same_or_chained(got, exc):
                 st.inc("probe_write_fault_swallowed_or_replaced")
             full = (n_ % 8 == 0) or n_ == len(idxs) - 1
+            # first while the caller still holds the exception (a retry inside the except block:
+            # the traceback keeps the failed call's frames and whatever they reference alive) ...
             sig = _after_check(wl, ci, ii, others, cache, full=full, in_thread=(n_ % 16 == 5))
             if sig is not None:
                 return done("write", i, kind, "after-write-fault:" + sig)
+            if full:
+                # ... then again after the exception has been dropped
+                got = exc = sink.fail_exc = None
+                sig = _after_check(wl, ci, ii, others, cache, full=True, in_thread=False)
+                if sig is not None:
+                    return done("write", i, kind, "after-write-fault(exception dropped):" + sig)
     # -- I/O error raised by the source at read call i
     if group == "io" and (only is None or only[0] == "read"):
         idxs = [only[1]] if only is not None else _indices(rng, R, 400)
@@ -586,7 +592,7 @@ def _faults_child(wl_json: dict, gold: list, ci: int, ii: int, others: list, pla
             if sig is not None:
                 return done("read", i, kind, "after-read-fault:" + sig)
     # -- asynchronous interrupt at kio line step j of a warm encode / decode
-    for phase, fn in (("int-w", lambda: w(streams.SimSink(), inst)), ("int-r", lambda: r(streams.SimSource(data)))):
+    for phase, fn in (("int-w", lambda: w(streams.SimSink(retain=False), inst)), ("int-r", lambda: r(streams.SimSource(data)))):
         if group != "async" or (only is not None and only[0] != phase):
             continue
         n_steps, _res, exc = steps.count_steps(fn)
@@ -1010,6 +1016,10 @@ def finalize(stats, tier, runs, distinct, samples, wall):
         "asynchronous interrupts are raised from the trace function at line events (what KeyboardInterrupt does between bytecodes)",
     ]
     problems = []
+    n_gold = stats.get("golden_forks", 0)
+    if stats.get("discarded_by_prepass", 0) > max(10, n_gold):
+        problems.append(f"FATAL: {stats.get('discarded_by_prepass')} instances did not survive the isolated clean round trip "
+                        f"({n_gold} classes prepared): this check cannot judge this tree")
     need = ["probe_concurrent_same_class_build", "probe_switch_inside_tagged_scratch", "probe_closure_reused_50x",
             "fault_interrupt_during_build", "fault_interrupt_encode", "fault_interrupt_decode"]
     for p in need:
